@@ -134,6 +134,7 @@ pub struct Program {
     pub args: Args,
     pub ds: Arc<Dataset>,
     pub origin: &'static str,
+    pub bound: usize,
 }
 
 /// Hand-written programs aimed at every resolver-call site of execution.rs.
@@ -164,7 +165,8 @@ fn select_programs(ctx: &Ctx, uni: &Universe) -> Vec<Program> {
     let sm = &uni.world.schema;
     let mut out = vec![];
     let ds_by_name: BTreeMap<&str, &Arc<Dataset>> = uni.datasets.iter().map(|d| (d.name.as_str(), d)).collect();
-    let mut push = |q: &Query, text: String, dsn: &str, origin: &'static str, out: &mut Vec<Program>| {
+    let full_bound = ctx.tier.pick(2usize, 3usize);
+    let mut push = |q: &Query, text: String, dsn: &str, origin: &'static str, bound: usize, out: &mut Vec<Program>| {
         let compiled = engine::compile(&uni.schema, &text);
         if origin == "handpicked" {
             if let Compiled::Err(e) = &compiled {
@@ -174,13 +176,13 @@ fn select_programs(ctx: &Ctx, uni: &Universe) -> Vec<Program> {
         if let Compiled::Ok(iq) = compiled {
             if let Ok(vt) = reference::expected_variable_types(sm, q) {
                 let args = qgen::argument_maps(&vt, false, 1).into_iter().next().unwrap_or_default();
-                out.push(Program { text, iq, args, ds: (*ds_by_name[dsn]).clone(), origin });
+                out.push(Program { text, iq, args, ds: (*ds_by_name[dsn]).clone(), origin, bound });
             }
         }
     };
     for (dsn, text) in HANDPICKED {
         match qast::parse_query_text(text) {
-            Ok(q) => push(&q, text.to_string(), dsn, "handpicked", &mut out),
+            Ok(q) => push(&q, text.to_string(), dsn, "handpicked", full_bound, &mut out),
             Err(e) => crate::common::machinery(&format!("handpicked C02 query does not parse: {e}")),
         }
     }
@@ -200,10 +202,21 @@ fn select_programs(ctx: &Ctx, uni: &Universe) -> Vec<Program> {
         let sig = (q.root.clone(), f.optional.min(1), f.recurse.min(1), f.fold.min(2), f.nested_fold.min(1), f.count_output.min(1), f.count_filter.min(1), f.count_tag.min(1), f.coercion.min(1), f.filters_tag.min(1), f.filters_var.min(1), f.outputs.min(3));
         if seen_sig.insert(sig) {
             let dsn = if q.root == "Chains" { "chains" } else if f.count_filter + f.count_tag > 0 { "counts0123" } else { "diamond" };
-            push(q, q.text(), dsn, "enumerated", &mut out);
+            push(q, q.text(), dsn, "signature-representative", full_bound, &mut out);
             if ctx.tier == Tier::Thorough && q.root != "Chains" {
-                push(q, q.text(), "fan3", "enumerated", &mut out);
+                push(q, q.text(), "fan3", "signature-representative", full_bound, &mut out);
             }
+        } else {
+            // every other enumerated query with at least one edge: one deviation fewer
+            let dsn = if q.root == "Chains" { "chains" } else { "diamond" };
+            push(q, q.text(), dsn, "enumerated", full_bound - 1, &mut out);
+        }
+    }
+    // tag bookkeeping across scopes (needs two edges first): see qgen::tag_shapes
+    for q in qgen::tag_shapes(sm) {
+        push(&q, q.text(), "diamond", "tag-shapes", full_bound - 1, &mut out);
+        if ctx.tier == Tier::Thorough {
+            push(&q, q.text(), "counts0123", "tag-shapes", full_bound - 1, &mut out);
         }
     }
     out
@@ -213,6 +226,7 @@ pub fn run(ctx: &Ctx) -> ! {
     let uni = Universe::sverif();
     let programs = select_programs(ctx, &uni);
     let bound = ctx.tier.pick(2usize, 3usize);
+    let by_origin: Mutex<BTreeMap<String, (u64, u64)>> = Mutex::new(BTreeMap::new());
     let schedules = AtomicU64::new(0);
     let points = AtomicU64::new(0);
     let transitions = AtomicU64::new(0);
@@ -240,8 +254,8 @@ pub fn run(ctx: &Ctx) -> ! {
             }
         };
         // programs with many points stay at a lower deviation bound (reported)
-        let my_bound = if base_taken.len() > 90 && bound > 2 { 2 } else { bound };
-        if my_bound != bound {
+        let my_bound = if base_taken.len() > 90 && p.bound > 2 { 2 } else { p.bound };
+        if my_bound != p.bound {
             reduced.lock().unwrap().push(json!({"query_text": p.text, "points": base_taken.len(), "bound": my_bound}));
         }
         let mut local_tr = 0u64;
@@ -278,6 +292,12 @@ pub fn run(ctx: &Ctx) -> ! {
         points.fetch_add(stats.points, Ordering::Relaxed);
         transitions.fetch_add(local_tr, Ordering::Relaxed);
         programs_done.fetch_add(1, Ordering::Relaxed);
+        {
+            let mut b = by_origin.lock().unwrap();
+            let e = b.entry(format!("{} (d<={})", p.origin, my_bound)).or_insert((0, 0));
+            e.0 += 1;
+            e.1 += stats.schedules;
+        }
         if stats.capped || ctx.elapsed() >= budget + 30.0 {
             capped_programs.lock().unwrap().push(p.text.clone());
         }
@@ -295,6 +315,7 @@ pub fn run(ctx: &Ctx) -> ! {
     c.insert("programs".into(), json!(programs.len()));
     c.insert("programs_completed".into(), json!(programs_done.load(Ordering::Relaxed)));
     c.insert("deviation_bound".into(), json!(bound));
+    c.insert("programs_and_schedules_by_corpus".into(), json!(by_origin.lock().unwrap().iter().map(|(k, v)| (k.clone(), json!({"programs": v.0, "schedules": v.1}))).collect::<BTreeMap<_, _>>()));
     c.insert("programs_at_reduced_bound".into(), json!(reduced.lock().unwrap().clone()));
     c.insert("programs_cut_by_time_cap".into(), json!(capped.len()));
     c.insert("samples".into(), json!(samples.lock().unwrap().items));
